@@ -369,6 +369,15 @@ func (h *Handshaker) ReplayBlocks(
 		}
 	}
 
+	// A chain whose initial height is above 1 has no blocks below it: until its first
+	// block has been applied (state.LastBlockHeight == 0) the state counts as being at
+	// InitialHeight-1 in the height comparisons below. Otherwise a crash between
+	// saving that block and saving the state (store = InitialHeight, state = 0) could
+	// never be recovered from: "StoreBlockHeight > StateBlockHeight + 1".
+	if stateBlockHeight == 0 && storeBlockHeight > 0 {
+		stateBlockHeight = state.InitialHeight - 1
+	}
+
 	// First handle edge cases and constraints on the storeBlockHeight and storeBlockBase.
 	switch {
 	case storeBlockHeight == 0:
